@@ -52,11 +52,15 @@ type Cfg struct {
 	// library's to default. "" = both validators, "codesigning-only", "timestamping-only",
 	// "client-only" (the deprecated client), "none"
 	RevWiring string `json:"revWiring,omitempty"`
+	// BadDoc: one of the configured documents is not a valid policy document ("blob-level": unknown
+	// level name, "blob-override": illegal override, "oci-level"); a verifier must not come out of it
+	// - and if one does, using it must still not crash
+	BadDoc string `json:"badDoc,omitempty"`
 	VerifyTS   string            `json:"verifyTimestamp,omitempty"`
 }
 
 func (c Cfg) key() string {
-	return fmt.Sprintf("%s/%s%v/%s/%s/%s/%v/%s/%s/%s/%s", c.Docs, c.Level, c.Override, c.BlobStmt, c.PM, c.Trust, c.TSA, c.Identity, c.Revocation, c.VerifyTS, c.RevWiring)
+	return fmt.Sprintf("%s/%s%v/%s/%s/%s/%v/%s/%s/%s/%s/%s", c.Docs, c.Level, c.Override, c.BlobStmt, c.PM, c.Trust, c.TSA, c.Identity, c.Revocation, c.VerifyTS, c.RevWiring, c.BadDoc)
 }
 
 func defaultCfg(docs, level string) Cfg {
@@ -196,7 +200,22 @@ func build(r *runner, c Cfg) (v verifierAPI, err error) {
 			s, st, id := sv(lv)
 			doc.TrustPolicies = append(doc.TrustPolicies, trustpolicy.BlobTrustPolicy{Name: "global-statement", SignatureVerification: s, TrustStores: st, TrustedIdentities: id, GlobalPolicy: true})
 		}
+		switch c.BadDoc {
+		case "blob-level":
+			for i := range doc.TrustPolicies {
+				doc.TrustPolicies[i].SignatureVerification.VerificationLevel = "bogus-level"
+			}
+		case "blob-override":
+			for i := range doc.TrustPolicies {
+				if doc.TrustPolicies[i].SignatureVerification.VerificationLevel != "skip" {
+					doc.TrustPolicies[i].SignatureVerification.Override = map[trustpolicy.ValidationType]trustpolicy.ValidationAction{"integrity": "skip", "bogus": "log"}
+				}
+			}
+		}
 		opts.BlobTrustPolicy = doc
+	}
+	if c.BadDoc == "oci-level" && opts.OCITrustPolicy != nil {
+		opts.OCITrustPolicy.TrustPolicies[0].SignatureVerification.VerificationLevel = "bogus-level"
 	}
 	newGood := func() mocks.Plugin {
 		return mocks.Plugin{Name: pluginName, Version: "1.0.0", Capabilities: []pf.Capability{pf.CapabilityTrustedIdentityVerifier, pf.CapabilityRevocationCheckVerifier},
@@ -481,6 +500,12 @@ func (c *Case) classes(res *callResult) []string {
 	}
 	if c.Cfg.Level == "skip" {
 		cl = append(cl, "skip-level:"+c.Entry)
+	}
+	if c.Cfg.BadDoc != "" {
+		cl = append(cl, "invalid-policy-document="+c.Cfg.BadDoc)
+		if c.Cfg.Docs == "both" {
+			cl = append(cl, "invalid-policy-document-next-to-a-valid-one")
+		}
 	}
 	if c.Cfg.RevWiring != "" {
 		cl = append(cl, "revocation-wiring="+c.Cfg.RevWiring)
